@@ -1109,6 +1109,12 @@ for _c, _nm in ((12, "false"), (13, "null"), (14, "number_zero")):
       symbolic="(concrete requester/target)", assumes=["the requester's own authentication succeeds"],
       bounds="database of 13 users; the requester's account carries an \"admin\" entry that is %s; it asks to change another account's password" % _nm.replace("_", " "), **_scn_auth)
 
+_c16s = dict(props=["C16"], harness="harness/c16_strings.c", model=["model/strfn_ref.c"], stubs=["libc strcasecmp/strncasecmp/strcasestr: model/strfn_ref.c (\"C\" locale)"], assumes=[])
+O(id="C16.strcasecmp_leaf", entry="harness_strcasecmp", unwind=7, reach=["equal_by_folding"], functions=["jet_strcasecmp", "jet_strncasecmp"],
+  symbolic="two strings of 0..4 arbitrary non-NUL bytes each, n in 0..5", bounds="strings <= 4 bytes", **_c16s)
+O(id="C16.strcasestr_leaf", entry="harness_strcasestr", unwind=7, reach=["found_behind_partial_match"], functions=["jet_strcasestr"],
+  symbolic="haystack and needle of 0..4 arbitrary non-NUL bytes each", bounds="strings <= 4 bytes (covers a needle with a repeated prefix behind one more repetition: 'aab' in 'aaab')", **_c16s)
+
 # ------------------------------------------------------------------------------------------------ round 6 (groups A, B) strengthening
 O(id="C01.history_own_fetch", props=["C01", "C04", "C07"], harness="harness/scn_hist.c", entry="harness_history", defines=["HIST=6"],
   functions=["add_element_to_peer", "find_fetchers_for_element", "change_state", "add_fetch_to_peer", "notify_fetchers"],
